@@ -37,6 +37,115 @@ let run_sink id rest =
         | _ -> Printf.sprintf "%s panic" id))
   | [] -> id ^ " bad-case"
 
+(* ---- ENC: whole-stream encoding ---- *)
+
+let parse_cfg (s : string) : Encoder.config =
+  let kv = Stdlib.List.map (fun x -> match split_on '=' x with [k; v] -> (k, v) | _ -> failwith "cfg") (split_on ';' s) in
+  let g k = Stdlib.List.assoc k kv in
+  let b k = g k = "1" in
+  let n k = n_of_int (int_of_string (g k)) in
+  { Encoder.cfg_block_size = n "bs"; cfg_multithread = b "mt";
+    cfg_workers = (if g "w" = "-" then None else Some (n "w"));
+    cfg_use_leftside = b "ls"; cfg_use_rightside = b "rs"; cfg_use_midside = b "ms";
+    cfg_use_constant = b "uc"; cfg_use_fixed = b "uf"; cfg_use_lpc = b "ul";
+    cfg_fixed_max_order = n "fo";
+    cfg_order_sel = (if g "os" = "bc" then None else Some (n "os"));
+    cfg_lpc_order = n "lo"; cfg_quant_precision = n "qp"; cfg_use_direct_mse = b "dm"; cfg_mae_steps = n "ma";
+    cfg_window = (let w = g "win" in if w = "r" then None else Some (n_of_int (int_of_string (Stdlib.String.sub w 1 (Stdlib.String.length w - 1)))));
+    cfg_max_parameter = n "mp" }
+
+let parse_samples (s : string) : coq_Z list =
+  if s = "-" then [] else Stdlib.List.map (fun x -> z_of_int (int_of_string x)) (split_on ',' s)
+
+(* oracle tables: (frame, variant) -> entropies per order, qparams *)
+let parse_oracles (toks : string list) =
+  let ent = Hashtbl.create 64 and q = Hashtbl.create 64 in
+  Stdlib.List.iter (fun t ->
+    match split_on ':' t with
+    | ["O"; f; v; es; qs] ->
+      let f = int_of_string f and v = int_of_string v in
+      if es <> "-" then
+        Stdlib.List.iteri (fun k e -> Hashtbl.replace ent (f, v, k) (n_of_int (int_of_string e))) (split_on ',' es);
+      if qs <> "-" then
+        (match split_on ';' qs with
+         | [cs; sh; pr] ->
+           Hashtbl.replace q (f, v)
+             { Predict.q_coefs = Stdlib.List.map (fun x -> z_of_int (int_of_string x)) (split_on ',' cs);
+               q_shift = z_of_int (int_of_string sh); q_precision = n_of_int (int_of_string pr) }
+         | _ -> failwith "qparams")
+    | _ -> ()) toks;
+  let missing = ref false in
+  let entf f v k = (try Hashtbl.find ent (int_of_n f, int_of_n v, int_of_n k) with Not_found -> missing := true; N0) in
+  let qf f v = (try Hashtbl.find q (int_of_n f, int_of_n v) with Not_found -> missing := true;
+                  { Predict.q_coefs = [z_of_int 1]; q_shift = Z0; q_precision = n_of_int 2 }) in
+  (entf, qf, missing)
+
+let md5_oracle (bytes : coq_N list) : coq_N list =
+  let b = Bytes.create (Stdlib.List.length bytes) in
+  Stdlib.List.iteri (fun i x -> Bytes.set b i (Char.chr (int_of_n x))) bytes;
+  let d = Digest.bytes b in
+  Stdlib.List.init 16 (fun i -> n_of_int (Char.code d.[i]))
+
+let sub_summary (s : Component.subframe) : string =
+  match s with
+  | Component.SConstant _ -> "C"
+  | Component.SVerbatim _ -> "V"
+  | Component.SFixed (w, r, _) -> Printf.sprintf "F%dp%d" (Stdlib.List.length w) (int_of_n r.Rice.r_order)
+  | Component.SLpc (w, _, r, _) -> Printf.sprintf "L%dp%d" (Stdlib.List.length w) (int_of_n r.Rice.r_order)
+
+let frame_summary (f : Component.frame) : string =
+  let tag = match f.Component.f_header.Component.h_ch with
+    | Codes.Indep n -> int_of_n n - 1 | Codes.LeftSide -> 8 | Codes.RightSide -> 9 | Codes.MidSide -> 10 in
+  Printf.sprintf "%d:%s" tag (Stdlib.String.concat "," (Stdlib.List.map sub_summary f.Component.f_subframes))
+
+let res_kind id r = match r with
+  | Err e -> Printf.sprintf "%s err%d" id (int_of_n e)
+  | Panic s -> Printf.sprintf "%s panic@%d" id (int_of_n s)
+  | Ok _ -> id ^ " ok"
+
+let err_name e = match int_of_n e with 4 -> "err-source" | 2 | 3 | 5 -> "err-config" | _ -> "err-other"
+
+let run_enc id rest =
+  let (main, orc) = match Str.bounded_split_delim (Str.regexp_string " |") rest 2 with
+    | [a; b] -> (a, Stdlib.String.trim b) | [a] -> (a, "") | _ -> failwith "enc case" in
+  if orc = "ORACLE-PANIC" then id ^ " oracle-panic" else
+  match split_on ' ' main with
+  | [cfg; rate; ch; bps; bs; samples] ->
+    let cfg = parse_cfg cfg in
+    let (entf, qf, missing) = parse_oracles (split_on ' ' orc) in
+    let n s = n_of_int (int_of_string s) in
+    let r = Encoder.encode_stream entf qf md5_oracle cfg (n rate) (n ch) (n bps) (n bs) (parse_samples samples) in
+    (match r with
+     | Ok s ->
+       (match Component.stream_bytes s with
+        | Ok bytes ->
+          let sum = if s.Component.s_frames = [] then "-" else Stdlib.String.concat "/" (Stdlib.List.map frame_summary s.Component.s_frames) in
+          Printf.sprintf "%s ok %s v cb=%d %s%s" id sum (int_of_n (Component.stream_count_bits s)) (hex_of_bytes bytes) (if !missing then " ORACLE-MISSING" else "")
+        | Err e -> Printf.sprintf "%s %s" id (err_name e)
+        | Panic st -> Printf.sprintf "%s panic" id)
+     | Err e -> Printf.sprintf "%s %s" id (err_name e)
+     | Panic st -> Printf.sprintf "%s panic" id)
+  | _ -> id ^ " bad-case"
+
+(* ---- DEC: the independent decoder on a byte string ---- *)
+let fmt_z_list (l : coq_Z list) : string =
+  if l = [] then "-" else Stdlib.String.concat "," (Stdlib.List.map (fun z -> string_of_int (int_of_z z)) l)
+
+let run_dec id rest =
+  let bytes = if rest = "-" then [] else hexbytes rest in
+  match Flac.decode_stream bytes with
+  | None -> id ^ " reject"
+  | Some (si, samples) ->
+    let lens = (match Flac.read_magic_and_meta (Flac.rd_of bytes) with
+      | Some (si2, r) -> (match Flac.frame_lengths (Datatypes.length r.Flac.r_bytes) si2 r.Flac.r_bytes with
+                          | Some l -> Stdlib.String.concat "," (Stdlib.List.map (fun x -> string_of_int (int_of_n x)) l)
+                          | None -> "?")
+      | None -> "?") in
+    Printf.sprintf "%s ok rate=%d ch=%d bps=%d total=%d minb=%d maxb=%d minf=%d maxf=%d md5=%s lens=%s %s" id
+      (int_of_n si.Flac.i_rate) (int_of_n si.Flac.i_channels) (int_of_n si.Flac.i_bps) (int_of_n si.Flac.i_total)
+      (int_of_n si.Flac.i_min_block) (int_of_n si.Flac.i_max_block) (int_of_n si.Flac.i_min_frame) (int_of_n si.Flac.i_max_frame)
+      (hex_of_bytes si.Flac.i_md5) (if lens = "" then "-" else lens) (fmt_z_list samples)
+
 let run_line (line : string) : string =
   match split_on ' ' line with
   | stream :: id :: _ ->
@@ -45,6 +154,8 @@ let run_line (line : string) : string =
     (try
       (match stream with
        | "SINK" -> run_sink id rest
+       | "ENC" -> run_enc id rest
+       | "DEC" -> run_dec id rest
        | _ -> id ^ " unknown-stream")
      with Stack_overflow -> id ^ " model-stack-overflow")
   | _ -> "bad-line"
